@@ -415,13 +415,13 @@ theorem decode_cases (old : Layer) (data foreign : Bytes) : decode old data fore
                 · obtain ⟨_, _, _, _, _, h5, _⟩ := specExts_ok _ _ _ _ hs
                   simp only [List.length_cons] at h5; omega
               · simp only [Res.ok.injEq, Prod.mk.injEq] at hs; omega
-            simp only [liftExts, Res.bind_ok]
+            simp only [liftExts, Res.bind_ok, res_pure_bind]
             rw [sliceCap_le data foreign 0 (12 + m) (by omega) hm, sliceFrom_le data (12 + m) hm]
             simp only [Res.bind_ok, List.drop_zero, Nat.sub_zero]
             rw [← List.drop_drop, hd12]
             rfl
       · have hopt' : (sFlag || pnFlag || eFlag) = false := by simpa using hopt
-        simp only [hopt', Bool.false_eq_true, ↓reduceIte, Res.bind_ok]
+        simp only [hopt', Bool.false_eq_true, ↓reduceIte, Res.bind_ok, res_pure_bind]
         rw [sliceCap_le data foreign 0 8 (by omega) (by omega), sliceFrom_le data 8 (by omega), hd8]
         simp only [Res.bind_ok, List.drop_zero, Nat.sub_zero]
         rw [← hdata]
@@ -429,15 +429,27 @@ theorem decode_cases (old : Layer) (data foreign : Bytes) : decode old data fore
 
 /-- the specification never panics (in particular: the loop fuel `len(data)` suffices). -/
 theorem spec_no_panic (data : Bytes) (k : PanicKind) : spec data ≠ .panic k := by
-  unfold spec
-  split
-  · rename_i d0 d1 m0 m1 t0 t1 t2 t3 r0
+  match data with
+  | [] => intro h; cases h
+  | [_] => intro h; cases h
+  | [_, _] => intro h; cases h
+  | [_, _, _] => intro h; cases h
+  | [_, _, _, _] => intro h; cases h
+  | [_, _, _, _, _] => intro h; cases h
+  | [_, _, _, _, _, _] => intro h; cases h
+  | [_, _, _, _, _, _, _] => intro h; cases h
+  | d0 :: d1 :: m0 :: m1 :: t0 :: t1 :: t2 :: t3 :: r0 =>
+    simp only [spec]
     split
     · intro h; cases h
-    · dsimp only
-      split
-      · split
-        · rename_i s0 s1 n x r1
+    · split
+      · match r0 with
+        | [] => intro h; cases h
+        | [_] => intro h; cases h
+        | [_, _] => intro h; cases h
+        | [_, _, _] => intro h; cases h
+        | s0 :: s1 :: n :: x :: r1 =>
+          simp only
           have hnp : ∀ k', specOptExts (decide ((d0.toNat >>> 2) &&& 0x01 = 1))
               ((s0 :: s1 :: n :: x :: r1).length + 8) x r1 ≠ .panic k' := by
             intro k'
@@ -452,9 +464,7 @@ theorem spec_no_panic (data : Bytes) (k : PanicKind) : spec data ≠ .panic k :=
           | panic k' => exact absurd hs (hnp k')
           | err e => intro h; cases h
           | ok y => intro h; cases h
-        · intro h; cases h
       · intro h; cases h
-  · intro h; cases h
 
 /-- A history of DecodeFromBytes calls on ONE layer object (see Vxlan.decodeSeq). -/
 def decodeSeq (afterErr : Layer → Bytes → Layer) : Layer → List (Bytes × Bytes) → List (Res (Layer × Bool))
